@@ -127,7 +127,45 @@ pub fn drive(
         }
         m => panic!("mode must be gen or replay, got {:?}", m),
     };
-    drive_finish(&args, inputs, |inputs| inputs.iter().map(|(_, i)| run(i)).collect());
+    install_panic_recorder();
+    drive_finish(&args, inputs, |inputs| inputs.iter().map(|(_, i)| guarded(&run, i, false)).collect());
+}
+
+//------------ panic net -----------------------------------------------------
+//
+// A panic that escapes `run` (most binaries catch the ones they expect themselves) is recorded as a case
+// of its own: Coq term `PANIC`, observation {"panic": message, "at": location}.  lib/rvcheck.py turns it
+// into a violation when the location is in the implementation (or a library it calls) and into a failure
+// of the machinery when it is in the harness's own source.
+
+thread_local! { static LAST_PANIC: std::cell::RefCell<Option<(String, String)>> = std::cell::RefCell::new(None); }
+/// The first panic on any thread since the last reset (a panic of a helper thread comes before the panic of
+/// the `join().unwrap()` that reports it; sequential driver only).
+static FIRST_PANIC: std::sync::Mutex<Option<(String, String)>> = std::sync::Mutex::new(None);
+
+pub fn install_panic_recorder() {
+    std::panic::set_hook(Box::new(|info| {
+        let msg = if let Some(s) = info.payload().downcast_ref::<&str>() { s.to_string() }
+                  else if let Some(s) = info.payload().downcast_ref::<String>() { s.clone() }
+                  else { "<non-string panic payload>".to_string() };
+        let at = info.location().map(|l| format!("{}:{}:{}", l.file(), l.line(), l.column())).unwrap_or_default();
+        LAST_PANIC.with(|p| *p.borrow_mut() = Some((msg.clone(), at.clone())));
+        let mut g = FIRST_PANIC.lock().unwrap_or_else(|e| e.into_inner());
+        if g.is_none() { *g = Some((msg, at)); }
+    }));
+}
+
+pub fn guarded(run: &dyn Fn(&Value) -> CaseOut, input: &Value, parallel: bool) -> CaseOut {
+    LAST_PANIC.with(|p| *p.borrow_mut() = None);
+    if !parallel { *FIRST_PANIC.lock().unwrap_or_else(|e| e.into_inner()) = None; }
+    match std::panic::catch_unwind(std::panic::AssertUnwindSafe(|| run(input))) {
+        Ok(out) => out,
+        Err(_) => {
+            let first = if parallel { None } else { FIRST_PANIC.lock().unwrap_or_else(|e| e.into_inner()).take() };
+            let (msg, at) = first.or_else(|| LAST_PANIC.with(|p| p.borrow_mut().take())).unwrap_or_default();
+            CaseOut { obs: json!({"panic": msg, "at": at}), coq: "PANIC".into(), nontrivial: false }
+        }
+    }
 }
 
 /// Like `drive`, but runs the cases on `threads` threads (for families whose cases are independent
@@ -153,6 +191,7 @@ pub fn drive_par(
         }
         m => panic!("mode must be gen or replay, got {:?}", m),
     };
+    install_panic_recorder();
     drive_finish(&args, inputs, |inputs| {
         let n = inputs.len();
         let next = std::sync::atomic::AtomicUsize::new(0);
@@ -162,7 +201,7 @@ pub fn drive_par(
                 s.spawn(|| loop {
                     let i = next.fetch_add(1, std::sync::atomic::Ordering::SeqCst);
                     if i >= n { break }
-                    let out = run(&inputs[i].1);
+                    let out = guarded(&run, &inputs[i].1, true);
                     *results[i].lock().unwrap() = Some(out);
                 });
             }
